@@ -185,7 +185,7 @@ def _iso8583_to_dict(message, bit_config, encoding=DEFAULT_ENCODING, hex_bitmap=
     message_pointer = 0
     bitmap_list = _get_bitmap_list(binary_bitmap)
 
-    for bit in range(2, 128):
+    for bit in range(2, 129):  # data elements 2..128
         if bitmap_list[bit]:
             LOGGER.debug("processing bit %s", bit)
             # Check that config is available for this bit
@@ -247,7 +247,7 @@ def _dict_to_iso8583(message, bit_config, encoding=DEFAULT_ENCODING, hex_bitmap=
         LOGGER.debug(f'de{de_field_key}={de_field_value}')
         message[f'DE{de_field_key}'] = de_field_value
 
-    for bit in range(2, 128):
+    for bit in range(2, 129):  # data elements 2..128
         if message.get('DE' + str(bit)) or message.get('DE' + str(bit)) == 0:  # 0 evals to false, allow zero values
             LOGGER.debug(f'processing bit {bit}')
             bitmap_values[bit - 1] = True
